@@ -61,7 +61,11 @@ impl SpatialTrackHandle {
 	) -> Result<TrackHandle, ResourceLimitReached> {
 		let (mut track, handle) =
 			builder.build(self.renderer_shared.clone(), self.internal_buffer_size);
+		#[cfg(kira_verif)]
+		crate::verif::yield_point("add_track.rate.load");
 		track.init_effects(self.renderer_shared.sample_rate.load(Ordering::SeqCst));
+		#[cfg(kira_verif)]
+		crate::verif::yield_point("add_track.insert");
 		self.sub_track_controller.insert(track)?;
 		Ok(handle)
 	}
@@ -79,7 +83,11 @@ impl SpatialTrackHandle {
 			listener.into(),
 			position.into().to_(),
 		);
+		#[cfg(kira_verif)]
+		crate::verif::yield_point("add_track.rate.load");
 		track.init_effects(self.renderer_shared.sample_rate.load(Ordering::SeqCst));
+		#[cfg(kira_verif)]
+		crate::verif::yield_point("add_track.insert");
 		self.sub_track_controller.insert(track)?;
 		Ok(handle)
 	}
